@@ -219,8 +219,38 @@ let do_aio (cmd : string) =
        astate := Some s';
        print_res r; print_astate s')
 
-(* ---- sequential threading scheduler ----------------------------------------------------- *)
 let state : sched option ref = ref None
+
+(* ---- micro-operations of concurrent executions (C14-C16) ---------------------------------------- *)
+let mst : mstate option ref = ref None
+let do_mop (cmd : string) =
+  (match cmd with
+   | "MINIT" -> (match !state with Some s -> mst := Some (m_init s) | None -> ())
+   | _ -> ());
+  match !mst with
+  | None -> print_string "NOSTATE\nEND\n"
+  | Some m ->
+    if cmd = "MINIT" then (print_string "RES ok none\n"; print_state m.m_s) else
+    let o = (match cmd with
+        | "MADD" -> MAdd (cfg ())
+        | "MONCE" -> let ot = oncetiming () in MOnce (ot, cfg ())
+        | "MREMOVE" -> MRemove (nat ())
+        | "MDELJOBS" -> let t = otags () in MDeleteJobs (t, boolean ())
+        | "MSNAP" -> let t = otags () in MSnapshot (t, boolean ())
+        | "MBEGIN" -> let t = nat () in let f = boolean () in MBegin (t, f, counted nat)
+        | "MPRIO" -> let t = nat () in let id = nat () in
+          let p = (match next () with "N" -> None | _ -> let n = zz () in let d = zz () in Some (n, d)) in
+          MPrio (t, id, p)
+        | "MSELECT" -> MSelect (nat ())
+        | "MRUN" -> let id = nat () in MRun (id, boolean ())
+        | "MRESCHED" -> MResched (nat ())
+        | "MRETIRE" -> MRetire (nat ())
+        | t -> raise (Parse ("mop: " ^ t))) in
+    let (m', r) = mstep m o in
+    mst := Some m';
+    print_res r; print_state (clear_events m'.m_s)
+
+(* ---- sequential threading scheduler ----------------------------------------------------- *)
 let do_line (line : string) =
   toks := List.filter (fun t -> t <> "") (String.split_on_char ' ' (String.trim line));
   match !toks with
@@ -236,8 +266,10 @@ let do_line (line : string) =
        (match sched_init tz mx pk ctor now with
         | Ok s -> state := Some s; print_string "RES ok none\n"; print_state s
         | Err e -> state := None; Printf.printf "RES err %s\nEND\n" (exn_name e))
-     | "RESET" -> state := None; astate := None; print_string "RESET\n"
+     | "RESET" -> state := None; astate := None; mst := None; print_string "RESET\n"
      | ("AINIT" | "ASCHED" | "AONCE" | "AOP" | "ARUN") as c -> do_aio c
+     | ("MINIT" | "MADD" | "MONCE" | "MREMOVE" | "MDELJOBS" | "MSNAP" | "MBEGIN" | "MPRIO" | "MSELECT" | "MRUN"
+       | "MRESCHED" | "MRETIRE") as c -> do_mop c
      | "TABLE" ->
        let ww = boolean () in
        let has_tz = boolean () in
